@@ -222,6 +222,8 @@ def gen_cases(tier, seed):
     for wrap in (False, True):
         for m in (['rpc', 'pause', 'ip'], ['rpc', 'kill', 'ik'], ['rpc', 'status', None], ['bcast', 'kill', 'ibk']):
             yield {'kind': 'idle', 'name': 'wait1', 'program': P['wait1'], 'msg': m, 'wrap': wrap}
+        for m in (['rpc', 'play', None], ['bcast', 'play', None]):
+            yield {'kind': 'idle', 'name': 'wait1', 'program': P['wait1'], 'msg': m, 'wrap': wrap, 'prep': ['pause', 'resume']}
     if tier == 'thorough':
         for i in range(400):
             name = rng.choice(sorted(P))
@@ -256,6 +258,14 @@ def run_idle(case):
             programs.CURRENT_REC = None
         run.task = drv.loop.create_task(proc.step_until_terminated())
         drv.pump()  # the process now waits; nothing is scheduled
+        for prep in case.get('prep', ()):
+            # e.g. paused, then resumed while paused: the play that arrives over the communicator is what lets it finish
+            run._direct = True
+            try:
+                getattr(proc, prep)(*(['idle-prep'] if prep != 'play' else []))
+            finally:
+                run._direct = False
+            drv.pump()
         m = case['msg']
         outcome = {}
 
@@ -280,13 +290,17 @@ def run_idle(case):
                 reply = None
                 if m[0] == 'rpc':
                     fut = {'pause': lambda: run.ctl.pause_process(proc.pid, m[2]), 'kill': lambda: run.ctl.kill_process(proc.pid, m[2]),
-                           'status': lambda: run.ctl.get_status(proc.pid)}[m[1]]()
+                           'play': lambda: run.ctl.play_process(proc.pid), 'status': lambda: run.ctl.get_status(proc.pid)}[m[1]]()
                     reply = futures.unwrap_kiwi_future(fut)
+                elif m[1] == 'play':
+                    run.ctl.play_all()
                 else:
                     run.ctl.kill_all(m[2])
                 # generous wall-clock watchdog (the operation takes about a millisecond when the loop is woken up)
                 while time.time() - t0 < 20:
                     handled = (reply.done() if reply is not None else bool(run.handler_calls)) and (m[1] == 'status' or bool(run.handler_calls))
+                    if case.get('prep') and m[1] == 'play':
+                        handled = handled and proc.has_terminated()  # the resumed process was only waiting for the play
                     if handled:
                         break
                     time.sleep(0.002)
